@@ -14,6 +14,8 @@ def build_spec():
     for mod in MODULES:
         m = importlib.import_module("contracts." + mod)
         m.declare(spec)
+    from . import c_exit_arrival
+    c_exit_arrival.declare_arrivals(spec)
     return spec
 
 
